@@ -255,7 +255,9 @@ def run_tlc(
         if res.violated:
             idx = out.find("Error:")
             res.error_trace = out[idx:].splitlines()[:400]
-        res.records = _parse_exports(out)
+        # TLC's workers print exports in a schedule-dependent order: sort them, so that what a check samples from them is
+        # a function of VERIF_SEED alone
+        res.records = sorted(_parse_exports(out), key=lambda r: json.dumps(r, sort_keys=True))
         finished = "Model checking completed" in out or "Finished in" in out or simulate
         if res.violated is None:
             if p.returncode != 0 or not finished or "Error:" in out:
